@@ -188,6 +188,29 @@ def parse_fasta(txt):
     return names, seqs
 
 
+def fasta_format_problems(txt):
+    """Problems in the layout of a FASTA alignment as ska writes it: header and sequence lines alternate, one line per
+    sequence, no further blank lines (an empty alignment has empty sequence lines), a final newline, symbols from the IUPAC set plus '-'."""
+    bad = []
+    if txt == '':
+        return bad
+    if not txt.endswith('\n'):
+        bad.append('does not end in a newline')
+    lines = txt.split('\n')[:-1] if txt.endswith('\n') else txt.split('\n')
+    if len(lines) % 2:
+        bad.append('%d lines: header and sequence lines do not alternate' % len(lines))
+    for i, l in enumerate(lines):
+        if i % 2 == 0:
+            if not l.startswith('>'):
+                bad.append('line %d should be a header: %r' % (i + 1, l[:40]))
+                break
+        else:
+            if l.startswith('>') or set(l) - set('ACGTUNRYSWKMBDHV-'):
+                bad.append('line %d should be an upper-case sequence line: %r' % (i + 1, l[:40]))
+                break
+    return bad
+
+
 def columns(seqs):
     if not seqs or not seqs[0]:
         return []
